@@ -11,7 +11,7 @@
 (*          outcome Layer R demands, and never in "panic").                                    *)
 EXTENDS Naturals, Sequences, TLC
 
-NoFault == 1000000
+NoFault == 2000000000   \* "the reader/writer never fails": larger than any file length (32-bit)
 
 \* ---- Layer R
 \* reading through std::io::Read (needs exactly L units; trailing units are not consumed)
